@@ -68,3 +68,81 @@ Theorem C11_direct_nested_partial : forall T v evs,
              forall F, (ftsize T < F)%nat -> deep_eq F T (omit_view F T v) v' = true.
 Proof. exact SF.Gotype.UnfoldStructProofs.C11_direct_nested_partial. Qed.
 Print Assumptions C11_direct_nested_partial.
+
+(* interface{}-typed fields, elements, map values and pointer targets ([nest3] = [nest] plus
+   TIface in these positions and at top level), holding ANY value Fold accepts (it comes back as
+   generic data, which deep_eq compares through the documented mapping).  [has_type]: the
+   value is well-typed; [ksorted]: maps not behind an interface are listed sorted by key.
+   The identity, direct route - and through each codec: the bytes the encoder model writes
+   for Fold's events, parsed by the parser model (CBOR, JSON: ANY chunking; UBJSON: any chunking
+   that returns), unfold into a zero target to a value deep_eq to the original.
+   Side conditions: CBOR lengths < 2^64; UBJSON lengths < 2^63, the resource guard (finding
+   F2) on the output, and no integer above MaxInt64 in the value (findings F1/F3:
+   SF.Gotype.RoundtripGoProofs.C11_ubj_counterexample); JSON: no floats and valid UTF-8
+   strings in the value ([value_exact]: a float64 with an integral value held in an
+   interface{} comes back as an integer - numerically identical, which is what C01 asks of
+   JSON, but not deep_eq: C11_json_float_in_interface_counterexample).
+   STILL MISSING: inlined pointers / maps / interfaces, arrays and defined struct types as
+   static types; floats through JSON. *)
+From SF Require Gotype.RoundtripGoProofs Cbor.Enc Cbor.Parse Ubjson.Enc Ubjson.Parse Json.Enc Json.Parse.
+Module RG := SF.Gotype.RoundtripGoProofs.
+Theorem C11_direct_iface_partial : forall T v evs,
+  RG.nest3 T = true -> has_type T v = true -> RG.ksorted T v = true -> fold_value T v = (evs, None) ->
+  exists v', unfold_value T (zero_of T) evs = UDone v' /\
+             forall F, (3 * (tsize T + vsize v) + 6 <= F)%nat -> deep_eq F T (omit_view F T v) v' = true.
+Proof. exact RG.C11_direct_iface_partial. Qed.
+Print Assumptions C11_direct_iface_partial.
+
+Theorem C11_cbor_route_partial : forall T v evs,
+  RG.nest3 T = true -> has_type T v = true -> RG.ksorted T v = true -> fold_value T v = (evs, None) ->
+  RG.cbor_small_stream evs = true ->
+  exists bs, SF.Cbor.Enc.cbor_encode evs = Some bs /\ all_bytes bs = true /\
+    ((zlen bs <=? SF.Cbor.ConformanceProofs.MaxInt64) = true -> forall cs, concat cs = bs ->
+       exists pevs v', SF.Cbor.Parse.run_chunks None cs = Ok (pevs, SF.Cbor.Parse.nilE) /\
+         unfold_value T (zero_of T) pevs = UDone v' /\
+         forall F, (3 * (tsize T + vsize v) + 6 <= F)%nat -> deep_eq F T (omit_view F T v) v' = true).
+Proof. exact RG.C11_cbor_route_partial. Qed.
+Print Assumptions C11_cbor_route_partial.
+
+Theorem C11_ubj_route_partial : forall T v evs,
+  RG.nest3 T = true -> has_type T v = true -> RG.ksorted T v = true -> fold_value T v = (evs, None) ->
+  RG.ubj_small_stream evs = true -> RG.value_noh T v = true ->
+  exists bs, SF.Ubjson.Enc.ubj_encode evs = Some bs /\ all_bytes bs = true /\
+    ((zlen bs <=? SF.Cbor.ConformanceProofs.MaxInt64) = true ->
+     SF.Ubjson.ConformanceProofs.no_huge_zero_typed bs = true ->
+     exists pevs v' p, SF.Ubjson.Parse.urun_parse None bs = Ok (pevs, SF.Ubjson.Parse.unilE, p) /\
+       (forall cs r, concat cs = bs -> SF.Ubjson.Parse.urun_chunks None cs = Ok r -> fst r = (pevs, SF.Ubjson.Parse.unilE)) /\
+       unfold_value T (zero_of T) pevs = UDone v' /\
+       forall F, (3 * (tsize T + vsize v) + 6 <= F)%nat -> deep_eq F T (omit_view F T v) v' = true).
+Proof. exact RG.C11_ubj_route_partial. Qed.
+Print Assumptions C11_ubj_route_partial.
+
+Section C11Json.
+  Import SF.Json.Spec SF.Json.Enc SF.Json.Parse.
+  Variable ffmt : Z -> Z -> bytes.
+  Variable pf : bytes -> option Z.
+  Variable fimg : Z -> Z -> cnum.
+  Variable fbits_r : Z -> Z -> Z.
+  Hypothesis ffmt_number : forall w bits, w = 32 \/ w = 64 -> in_u w bits = true -> nonfinite w bits = false ->
+     exists isint, json_number (ffmt w bits) = NumOk (ffmt w bits) isint [] /\
+                   json_num_value pf (ffmt w bits) isint = Some (fimg w bits).
+  Hypothesis ffmt_chars : forall w bits, w = 32 \/ w = 64 -> in_u w bits = true -> nonfinite w bits = false ->
+     Forall (fun c => In c SF.Json.EncProofs.fchars) (ffmt w bits).
+  Hypothesis pf_radix : forall w bits, w = 32 \/ w = 64 -> in_u w bits = true -> nonfinite w bits = false ->
+     snd (radix_scan (ffmt w bits) 0) = true ->
+     pf (SF.Json.RoundtripProofs.radix_patch (ffmt w bits)) = Some (fbits_r w bits).
+  Hypothesis pf_ok : forall l z, pf l = Some z -> in_u 64 z = true.
+
+  Theorem C11_json_route_partial : forall cfg T v evs,
+    RG.nest3 T = true -> has_type T v = true -> RG.ksorted T v = true -> fold_value T v = (evs, None) ->
+    RG.value_exact T v = true ->
+    exists e' pevs v' p,
+      json_run cfg ffmt (jenc0 None) evs 0 = JRun e' None /\
+      all_bytes (w_bytes (je_w e')) = true /\
+      jrun_parse pf None (w_bytes (je_w e')) = Ok (pevs, jpnil, p) /\
+      (forall cs, concat cs = w_bytes (je_w e') -> exists p', jrun_chunks pf None cs = Ok (pevs, jpnil, p')) /\
+      unfold_value T (zero_of T) pevs = UDone v' /\
+      forall F, (3 * (tsize T + vsize v) + 6 <= F)%nat -> deep_eq F T (omit_view F T v) v' = true.
+  Proof. exact (RG.C11_json_route_partial ffmt pf fimg fbits_r ffmt_number ffmt_chars pf_radix pf_ok). Qed.
+End C11Json.
+Print Assumptions C11_json_route_partial.
